@@ -189,3 +189,43 @@ func VerifH_C13_global_predicates() {
 		}
 	}
 }
+
+// Math.max / Math.min through the public API with object arguments: ToNumber is
+// applied to every argument, in order, whatever the earlier ones were (a NaN
+// does not cut the conversions short), and the result is the ES5 maximum.
+func VerifH_C13_maxmin_coercion() {
+	vm := New()
+	n := 2 + verifChoose(2)
+	fs := make([]float64, n)
+	args := ""
+	want := ""
+	for i := range fs {
+		fs[i] = verifNondetFloat64()
+		vm.Set("x"+verifItoa(int64(i)), fs[i])
+		if i > 0 {
+			args += ", "
+			want += ","
+		}
+		args += "{valueOf: function () { log.push(" + verifItoa(int64(i)) + "); return x" + verifItoa(int64(i)) + " }}"
+		want += verifItoa(int64(i))
+	}
+	isMax := verifNondetBool()
+	fn := "Math.min"
+	if isMax {
+		fn = "Math.max"
+	}
+	v, ok := verifRun(vm, "var log = []; var r = "+fn+"("+args+"); log.join()")
+	verifCover("reached")
+	verifAssert(ok, "does not throw")
+	if !ok {
+		return
+	}
+	verifAssert(v.String() == want, "15.8.2.11/12: every argument is converted, in order")
+	r, _ := vm.Get("r")
+	rf, _ := r.ToFloat()
+	if isMax {
+		verifAssert(sameF64(rf, refMax(fs)), "15.8.2.11 Math.max")
+	} else {
+		verifAssert(sameF64(rf, refMin(fs)), "15.8.2.12 Math.min")
+	}
+}
